@@ -29,14 +29,14 @@ const (
 
 var UTC = stdtime.UTC
 
-func Now() Time                       { return vrt.Now() }
-func Since(t Time) Duration           { return vrt.Now().Sub(t) }
-func Until(t Time) Duration           { return t.Sub(vrt.Now()) }
-func Sleep(d Duration)                { vrt.Sleep(d) }
-func NewTimer(d Duration) *Timer      { return vrt.NewTimer(d) }
-func NewTicker(d Duration) *Ticker    { return vrt.NewTicker(d) }
+func Now() Time                        { return vrt.Now() }
+func Since(t Time) Duration            { return vrt.Now().Sub(t) }
+func Until(t Time) Duration            { return t.Sub(vrt.Now()) }
+func Sleep(d Duration)                 { vrt.Sleep(d) }
+func NewTimer(d Duration) *Timer       { return vrt.NewTimer(d) }
+func NewTicker(d Duration) *Ticker     { return vrt.NewTicker(d) }
 func After(d Duration) *vrt.Chan[Time] { return vrt.NewTimer(d).C }
-func Unix(sec, nsec int64) Time       { return stdtime.Unix(sec, nsec) }
+func Unix(sec, nsec int64) Time        { return stdtime.Unix(sec, nsec) }
 func Date(year int, month Month, day, hour, min, sec, nsec int, loc *Location) Time {
 	return stdtime.Date(year, month, day, hour, min, sec, nsec, loc)
 }
